@@ -68,7 +68,8 @@ type c13world struct {
 	qs     *badgerstore.QueryStore
 	clean  func()
 	model  map[string]*string // id -> key (nil = not indexed) : the harness' own copy of the store content
-	inited bool // Init has run on this store
+	inited  bool // Init has run on this store
+	lateKey map[string]string
 	hold   int32
 	gate   chan struct{}
 	atGate chan struct{}
@@ -372,6 +373,51 @@ func RunC13(c *core.Ctx) {
 			q := randQuery(rng)
 			if got, err := w.query(q); err == nil {
 				recs = append(recs, rec{"kind": "query", "entries": ents, "q": q.rec(), "got": got, "dbg": fmt.Sprintf("history %d after RebuildIndexes", h)})
+			}
+		}
+		w.close()
+	}
+	// a change listener that reacts to the notification of the first seeded value by writing another seeded id:
+	// whether that write finds the value or not, after Init and Flush the index says what the store holds
+	for h := 0; h < c.Pick(4, 20); h++ {
+		w, err := newC13World([]string{"", "pfx"}[h%2])
+		if err != nil {
+			break
+		}
+		k1, k2, k3 := c13keys[1+h%3], c13keys[4+h%3], c13keys[2+h%4]
+		var once sync.Once
+		w.bs.OnChange(func(id string, before, after interface{}) {
+			if before == nil && (id == "a" || id == "b") {
+				once.Do(func() {
+					other := map[string]string{"a": "b", "b": "a"}[id]
+					t := w.bs.Write(other)
+					if t.Update(mkIval(&k3, 5)) == nil {
+						w.cbMu.Lock()
+						w.lateKey = map[string]string{other: k3}
+						w.cbMu.Unlock()
+					}
+					t.Close()
+				})
+			}
+		})
+		w.bs.Init(func(add func(id string, v interface{})) error {
+			add("a", mkIval(&k1, 1))
+			add("b", mkIval(&k2, 2))
+			return nil
+		})
+		w.model["a"], w.model["b"] = &k1, &k2
+		w.cbMu.Lock()
+		for id, k := range w.lateKey {
+			kk := k
+			w.model[id] = &kk
+		}
+		w.cbMu.Unlock()
+		w.qs.Flush()
+		ents := w.entries()
+		for k := 0; k < c.Pick(12, 30); k++ {
+			q := randQuery(rng)
+			if got, err := w.query(q); err == nil {
+				recs = append(recs, rec{"kind": "query", "entries": ents, "q": q.rec(), "got": got, "dbg": fmt.Sprintf("init-listener history %d: a change listener writes another seeded id during Init", h)})
 			}
 		}
 		w.close()
